@@ -19,6 +19,15 @@
 (*                              follows it, and nothing is owed to it);    *)
 (*                              present = data of the nodes now present    *)
 (*   Serve / Deliver / Other    progress markers, no meaning here          *)
+(* Compact forms used by histories with big member sets (> 100 nodes); each *)
+(* stands for exactly the sequence of single events it names:               *)
+(*   ZCreateN(lo, hi)           ZCreate(m, m) for m = lo .. hi (the fields  *)
+(*                              m, d of the event carry lo, hi; node m has  *)
+(*                              data m)                                     *)
+(*   ZDeleteN(lo, hi)           ZDelete(m) for m = lo .. hi                 *)
+(*   Joins(ds) / Leaves(ds)     Join(ds[1]), Join(ds[2]), ... (callbacks    *)
+(*                              that follow each other with nothing else    *)
+(*                              observable in between, none of them raising)*)
 (*                                                                         *)
 (* Members are identified the way a consumer can identify them: by the     *)
 (* Member value it is handed (Member.__eq__/__hash__ ignore the node name; *)
@@ -69,6 +78,11 @@ APresent(a) == IF a.parent THEN AValues(a) ELSE {}
 
 SeqToSet(s) == {s[i] : i \in DOMAIN s}
 
+Span(e) == e.m .. e.d
+\* first failing position of a run of joins / leaves applied one after the other: a value that is already
+\* in the set the single event checks (view for Join, left for Leave) or occurs earlier in the same run
+RunBad(ds, S) == \E i \in DOMAIN ds : ds[i] \in S \/ \E j \in 1..(i - 1) : ds[j] = ds[i]
+
 AQCheck(a, present) ==
   IF present # APresent(a) THEN "harness.treeAgree"
   ELSE IF a.view # APresent(a)
@@ -85,6 +99,11 @@ ACheck(a, e) ==
     [] e.e = "Join"    -> IF e.d \in a.view THEN "C19.alternate" ELSE "ok"
     [] e.e = "Leave"   -> IF e.d \in a.left THEN "C19.alternate" ELSE "ok"
     [] e.e = "Raised"  -> "ok"
+    [] e.e = "ZCreateN" -> IF ~a.parent \/ Span(e) = {} \/ Span(e) \cap ANames(a) # {} THEN "harness.createFresh"
+                           ELSE IF Span(e) \cap AValues(a) # {} THEN "harness.distinctValues" ELSE "ok"
+    [] e.e = "ZDeleteN" -> IF ~(Span(e) \subseteq ANames(a)) THEN "harness.deleteExisting" ELSE "ok"
+    [] e.e = "Joins"   -> IF RunBad(e.ds, a.view) THEN "C19.alternate" ELSE "ok"
+    [] e.e = "Leaves"  -> IF RunBad(e.ds, a.left) THEN "C19.alternate" ELSE "ok"
     [] e.e = "Q"       -> AQCheck(a, SeqToSet(e.present))
     [] e.e \in {"Serve", "Deliver", "Other"} -> "ok"
     [] OTHER -> "harness.unknownEvent"
@@ -97,6 +116,12 @@ AStep(a, e) ==
     [] e.e = "Join"    -> [a EXCEPT !.view = @ \cup {e.d}, !.left = @ \ {e.d}, !.raised = FALSE]
     [] e.e = "Leave"   -> [a EXCEPT !.view = @ \ {e.d}, !.left = @ \cup {e.d}, !.raised = FALSE]
     [] e.e = "Raised"  -> [a EXCEPT !.raised = TRUE]
+    [] e.e = "ZCreateN" -> [a EXCEPT !.kids = @ \cup {<<m, m>> : m \in Span(e)}]
+    [] e.e = "ZDeleteN" -> [a EXCEPT !.kids = {p \in @ : p[1] \notin Span(e)}]
+    [] e.e = "Joins"   -> [a EXCEPT !.view = @ \cup SeqToSet(e.ds), !.left = @ \ SeqToSet(e.ds),
+                                    !.raised = IF e.ds = <<>> THEN @ ELSE FALSE]
+    [] e.e = "Leaves"  -> [a EXCEPT !.view = @ \ SeqToSet(e.ds), !.left = @ \cup SeqToSet(e.ds),
+                                    !.raised = IF e.ds = <<>> THEN @ ELSE FALSE]
     [] OTHER -> a
 
 \* ---- per-event operators in the usual shape (check in the pre-state, unguarded update)
